@@ -1,6 +1,7 @@
 import SonicModel.Impl.StrBlock
 import SonicModel.Lemmas.StrDecodeMain
 import SonicModel.Lemmas.StrTables
+import SonicModel.Lemmas.ImplFuel
 namespace Sonic
 namespace StrBlock
 open Gen Impl
@@ -934,6 +935,133 @@ theorem parseStringRaw_eq (lossy : Bool) (buf : Buf) (i : Nat) :
     have := (raw_spec lossy buf _).1 i i r (Nat.le_refl _) h
     rw [this, bytes_self]
     cases (decodeFrom lossy buf i).view <;> simp [accView]
+
+/-- bytes that are neither backslash, quote nor control are passed over one by one -/
+theorem skipString_run (buf : Buf) (len : Nat) : ∀ (n i j : Nat), j - i = n → i ≤ j →
+    (∀ k, i ≤ k → k < j → ∃ c, buf[k]? = some c ∧ isSpecial c = false) → skipString buf len i = skipString buf len j := by
+  intro n
+  induction n with
+  | zero => intro i j hn hij _; have : i = j := by omega
+            subst this; rfl
+  | succ n ih =>
+    intro i j hn hij hp
+    obtain ⟨c, hc, hs⟩ := hp i (Nat.le_refl _) (by omega)
+    have hi : i < buf.size := (Array.getElem?_eq_some_iff.mp hc).1
+    have hb : buf[i] = c := by
+      have := getElem?_pos buf i hi; rw [hc] at this; exact (Option.some.inj this).symm
+    simp only [isSpecial, Bool.or_eq_false_iff] at hs
+    have e3 : ¬ (c ≤ 0x1f) := by simpa [isCtl] using hs.2
+    conv => lhs; rw [skipString]
+    simp only [hi, dite_true, hb, hs.1.1, hs.1.2, Bool.false_eq_true, if_false, e3]
+    exact ih (i + 1) j (by omega) (by omega) (fun k a b => hp k (by omega) b)
+
+/-- **the checked `skip_string` with its 32-byte blocks is the scalar `skip_string`** (same end, same error code and
+    position), for every buffer and start -/
+theorem skipStringB_eq (buf : Buf) (len : Nat) : ∀ (f i : Nat), skipStringB buf len f i ≠ .fuel →
+    skipStringB buf len f i = skipString buf len i := by
+  intro f
+  induction f with
+  | zero => intro i h; exact absurd (by rw [skipStringB]) h
+  | succ f ih =>
+    intro i hne
+    rw [skipStringB] at hne ⊢
+    by_cases hblk : i + 32 ≤ buf.size
+    · simp only [hblk, if_true] at hne ⊢
+      obtain ⟨m1, m2, m3, m4⟩ := findP_spec isSpecial buf 32 i (i + 32) (by omega) (by omega) hblk
+      generalize findP isSpecial buf i (i + 32) = m at *
+      by_cases hm : m < i + 32
+      · simp only [hm, if_true] at hne ⊢
+        obtain ⟨c, hc, hs⟩ := m4 hm
+        simp only [hc] at hne ⊢
+        rw [skipString_run buf len _ i m rfl m1 m3]
+        have hi : m < buf.size := (Array.getElem?_eq_some_iff.mp hc).1
+        have hb : buf[m] = c := by
+          have := getElem?_pos buf m hi; rw [hc] at this; exact (Option.some.inj this).symm
+        conv => rhs; rw [skipString]
+        simp only [hi, dite_true, hb]
+        by_cases h92 : (c == 92) = true
+        · simp only [h92, if_true] at hne ⊢
+          cases hse : skipEscapedChars buf len (m + 1) with
+          | ok j =>
+            simp only [hse] at hne ⊢
+            by_cases hmj : m < j
+            · simp only [hmj, if_true] at hne ⊢
+              exact ih j hne
+            · simp only [hmj, if_false] at hne; exact absurd rfl hne
+          | err a b => rfl
+          | fuel => rfl
+        · simp only [h92, Bool.false_eq_true, if_false]
+          by_cases h34 : (c == 34) = true
+          · simp only [h34, if_true]
+          · simp only [h34, Bool.false_eq_true, if_false]
+            have hctl : c ≤ 0x1f := by
+              simp only [isSpecial, h92, h34, Bool.false_or] at hs
+              simpa [isCtl] using hs
+            simp [hctl]
+      · simp only [hm, if_false] at hne ⊢
+        rw [ih _ hne]
+        have : m = i + 32 := by omega
+        subst this
+        exact (skipString_run buf len _ i (i + 32) rfl (by omega) m3).symm
+    · simp only [hblk, if_false]
+
+
+theorem skipEscapedChars_adv (buf : Buf) (len i j : Nat) (h : skipEscapedChars buf len i = .ok j) : i < j := by
+  unfold skipEscapedChars at h
+  cases hb : buf[i]? with
+  | none => simp [hb] at h
+  | some c =>
+    simp only [hb] at h
+    repeat' split at h
+    all_goals (first | (cases h; done) | (simp only [IRes.ok.injEq] at h; omega))
+
+/-- the block loop always terminates: every round moves the reader forward -/
+theorem skipEscapedChars_ne_fuel (buf : Buf) (len i : Nat) : skipEscapedChars buf len i ≠ .fuel := by
+  unfold skipEscapedChars
+  cases buf[i]? with
+  | none => simp
+  | some c => simp only; repeat' split
+              all_goals simp
+
+theorem skipStringB_fuel (buf : Buf) : ∀ (f i : Nat), 0 < f → buf.size + 1 ≤ f + i → skipStringB buf buf.size f i ≠ .fuel := by
+  intro f
+  induction f with
+  | zero => intro i h; omega
+  | succ f ih =>
+    intro i _ hsz
+    rw [skipStringB]
+    by_cases hblk : i + 32 ≤ buf.size
+    · simp only [hblk, if_true]
+      obtain ⟨m1, m2, m3, m4⟩ := findP_spec isSpecial buf 32 i (i + 32) (by omega) (by omega) hblk
+      generalize findP isSpecial buf i (i + 32) = m at *
+      by_cases hm : m < i + 32
+      · simp only [hm, if_true]
+        obtain ⟨c, hc, hs⟩ := m4 hm
+        simp only [hc]
+        split
+        · cases hse : skipEscapedChars buf buf.size (m + 1) with
+          | ok j =>
+            have := skipEscapedChars_adv buf buf.size _ j hse
+            simp only
+            rw [if_pos (by omega)]
+            by_cases hj : j ≤ buf.size
+            · exact ih j (by omega) (by omega)
+            · -- the escape ran to the end of the input: the next round stops at once
+              cases f with
+              | zero => omega
+              | succ f' =>
+                rw [skipStringB]
+                have : ¬ (j + 32 ≤ buf.size) := by omega
+                simp only [this, if_false]
+                exact skipString_ne_fuel buf j
+          | err a b => simp
+          | fuel => exact absurd hse (skipEscapedChars_ne_fuel buf buf.size _)
+        · split <;> simp
+      · simp only [hm, if_false]
+        exact ih _ (by omega) (by omega)
+    · simp only [hblk, if_false]
+      exact skipString_ne_fuel buf i
+
 
 end StrBlock
 end Sonic
